@@ -32,6 +32,14 @@ impl Expr {
             Expr::And(a, b) | Expr::Minus(a, b) => 1 + a.depth().max(b.depth()),
         }
     }
+    /// upper bound on the number of alternatives of the value (|A∩B| <= |A|·|B|, |A∖B| <= |A|·(1+|B|))
+    fn size_bound(&self, leaves: &[Operand]) -> usize {
+        match self {
+            Expr::Leaf(i) => leaves[*i].b.0.len(),
+            Expr::And(a, b) => a.size_bound(leaves).saturating_mul(b.size_bound(leaves)),
+            Expr::Minus(a, b) => a.size_bound(leaves).saturating_mul(1 + b.size_bound(leaves)),
+        }
+    }
     fn member(&self, leaves: &[Operand], v: &MV) -> bool {
         match self {
             Expr::Leaf(i) => leaves[*i].b.contains(v),
@@ -77,6 +85,13 @@ pub fn judge_tree(ctx: &mut Ctx, e: &Expr, leaves: &[Operand]) {
     let text = e.text(leaves);
     ctx.begin(|| format!("C15 {}", text));
     let w = json!({"tree": text});
+    // results of set operations have up to |A|·|B| alternatives by definition; trees whose value
+    // could exceed the harness budget are not evaluated (the harness, not the crate, would run
+    // out of memory when it re-uses a 6 561-alternative intermediate as an operand)
+    if e.size_bound(leaves) > 400 {
+        ctx.skip("tree value may exceed 400 alternatives (harness budget)");
+        return;
+    }
     let mut inter = vec![];
     let val = match guarded(|| e.eval(leaves, &mut inter)) {
         Ok(v) => v,
@@ -161,6 +176,8 @@ pub fn judge_tree(ctx: &mut Ctx, e: &Expr, leaves: &[Operand]) {
                     }
                 }
                 Ok(Err(er)) => {
+                    let oversize = b.versions().iter().any(|v| v.major > MAX_SAFE || v.minor > MAX_SAFE || v.patch > MAX_SAFE);
+                    let shape = if oversize { "bound-above-MAX_SAFE".to_string() } else { shape.clone() };
                     ctx.violation(&format!("reparse-fails/{}", shape), w.clone(), format!("intermediate {} prints as {:?} which does not parse: {}", t, printed, er));
                     return;
                 }
@@ -330,6 +347,20 @@ pub fn run(ctx: &mut Ctx) {
             judge_identities(ctx, &leaves[0], &leaves[1], &leaves[2]);
         }
         idx += stride;
+    }
+    // directed: the known-finding examples (K3) and the statement's identities on textbook operands
+    ctx.stratum("D-directed", true);
+    for (a, b, c) in [(">900719925474099.x", ">900719925474099.x", "*"), (">=1.0.0-a", "~>9.900719925474099.99-0.0", "<=0.0.1"), (">=1.0.0", "1.5.0 || 2.0.0", ">1.2.3 <3"), ("<1.2.3", "<=1.2.3", ">=1.2.3")] {
+        if ctx.take() {
+            if let (Some(x), Some(y), Some(z)) = (operand_from_text(a), operand_from_text(b), operand_from_text(c)) {
+                let leaves = vec![x, y, z];
+                let l = |i: usize| Box::new(Expr::Leaf(i));
+                for t in [Expr::And(l(0), l(1)), Expr::Minus(l(0), l(1)), Expr::Minus(Box::new(Expr::Minus(l(0), l(1))), l(2)), Expr::And(Box::new(Expr::Minus(l(0), l(1))), l(2))] {
+                    judge_tree(ctx, &t, &leaves);
+                }
+                judge_identities(ctx, &leaves[0], &leaves[1], &leaves[2]);
+            }
+        }
     }
     ctx.stratum("R-random-trees", false);
     let nr = ctx.tier.pick(20_000u64, 5_000_000u64);
